@@ -453,59 +453,74 @@ Lemma run_samples_map {E G Out} (step : E -> G -> Out * G) (out : E -> Out) :
 Proof. intros H. induction es as [|e t IH]; intros g; [reflexivity|]. cbn [run_samples map]. rewrite <- (H e g). destruct (step e g) as [o g']. cbn [fst]. f_equal. apply IH. Qed.
 (* repaired code: what is produced for an experiment does not depend on the state left by the experiments before it, nor on the
    process-pool mode; so a run over any sequence gives every experiment its stand-alone output *)
-Theorem samples_independent : forall dmi dme st pool pool' es g,
-  run_samples (process_sample_fix dmi dme st pool) es g = map (fun e => fst (process_sample_fix dmi dme st pool' e (init_state dmi dme))) es.
+Theorem samples_independent : forall dmi dme st rgfn pool pool' es g,
+  run_samples (process_sample_fix dmi dme st rgfn pool) es g = map (fun e => fst (process_sample_fix dmi dme st rgfn pool' e (init_state dmi dme rgfn))) es.
 Proof. intros. apply run_samples_map. intros e g'. reflexivity. Qed.
-Theorem samples_order_irrelevant : forall dmi dme st pool es es' g g' e,
+Theorem samples_order_irrelevant : forall dmi dme st rgfn pool es es' g g' e,
   In e es -> In e es' ->
-  exists o, In o (run_samples (process_sample_fix dmi dme st pool) es g) /\ In o (run_samples (process_sample_fix dmi dme st pool) es' g') /\
-            o = fst (process_sample_fix dmi dme st pool e (init_state dmi dme)).
+  exists o, In o (run_samples (process_sample_fix dmi dme st rgfn pool) es g) /\ In o (run_samples (process_sample_fix dmi dme st rgfn pool) es' g') /\
+            o = fst (process_sample_fix dmi dme st rgfn pool e (init_state dmi dme rgfn)).
 Proof.
-  intros. exists (fst (process_sample_fix dmi dme st pool e (init_state dmi dme))).
-  rewrite (samples_independent dmi dme st pool pool es g), (samples_independent dmi dme st pool pool es' g').
+  intros. exists (fst (process_sample_fix dmi dme st rgfn pool e (init_state dmi dme rgfn))).
+  rewrite (samples_independent dmi dme st rgfn pool pool es g), (samples_independent dmi dme st rgfn pool pool es' g').
   split; [apply in_map_iff; exists e; auto|split; [apply in_map_iff; exists e; auto|reflexivity]].
 Qed.
 (* current code, what the flags really are: the or over the experiments processed so far *)
-Theorem sticky_flags_characterisation : forall st pool es dmi dme,
-  map o_mono_intronic (run_samples (process_sample_cur st pool) es (init_state dmi dme))
+Theorem sticky_flags_characterisation : forall st rgfn pool es dmi dme,
+  map o_mono_intronic (run_samples (process_sample_cur st rgfn pool) es (init_state dmi dme rgfn))
   = map (fun k => set_strategy (dmi || existsb (fun e => set_strategy (e_polya_high e) st) (firstn (Datatypes.S k) es)) st) (seq 0 (length es)).
 Proof.
-  intros st pool es dmi dme. unfold init_state. generalize (@nil Z) as d. generalize 0 as un.
-  assert (G : forall es mi me un d, set_strategy mi st = mi \/ mi = dmi ->
-     map o_mono_intronic (run_samples (process_sample_cur st pool) es (mkg mi me un d))
+  intros st rgfn pool es dmi dme. unfold init_state. generalize rgfn at 2 as rp. generalize (@nil Z) as d. generalize 0 as un.
+  assert (G : forall es mi me un d rp, set_strategy mi st = mi \/ mi = dmi ->
+     map o_mono_intronic (run_samples (process_sample_cur st rgfn pool) es (mkg mi me un d rp))
      = map (fun k => set_strategy (mi || existsb (fun e => set_strategy (e_polya_high e) st) (firstn (Datatypes.S k) es)) st) (seq 0 (length es))).
-  { clear es. induction es as [|e t IH]; intros mi me un d Hmi; [reflexivity|].
+  { clear es. induction es as [|e t IH]; intros mi me un d rp Hmi; [reflexivity|].
     cbn [run_samples length seq map]. unfold process_sample_cur at 1. cbn [g_mono_intronic g_mono_exonic g_unaligned g_detected].
     destruct (if pool then _ else _) as [known d'] eqn:Ek. cbn [map o_mono_intronic firstn existsb]. rewrite orb_false_r. f_equal.
     rewrite IH; [|left; destruct st; reflexivity].
     rewrite <- seq_shift, map_map. apply map_ext. intros k. cbn [firstn existsb].
     destruct st; cbn [set_strategy]; try reflexivity. rewrite orb_assoc. reflexivity. }
-  intros un d. apply G. right. reflexivity.
+  intros un d rp. apply G. right. reflexivity.
 Qed.
 (* the three leaks of the current code, each on a two-experiment sequence: the second experiment's output differs from its stand-alone
    output *)
-Definition ex_high := mke true 0 0 [[[1; 2]]].
-Definition ex_low := mke false 0 0 [[[1; 2]]].
-Definition ex_unmapped := mke false 7 0 [[[1; 2]]].
+Definition ex_high := mke true 0 0 [[[1; 2]]] 1.
+Definition ex_low := mke false 0 0 [[[1; 2]]] 1.
+Definition ex_replicas := mke false 0 0 [[[1; 2]]] 2.
+Definition ex_unmapped := mke false 7 0 [[[1; 2]]] 1.
 Example samples_independent_refuted_sticky_flags :
-  run_samples (process_sample_cur PAuto true) [ex_high; ex_low] (init_state false false)
-  <> map (fun e => fst (process_sample_cur PAuto true e (init_state false false))) [ex_high; ex_low].
+  run_samples (process_sample_cur PAuto false true) [ex_high; ex_low] (init_state false false false)
+  <> map (fun e => fst (process_sample_cur PAuto false true e (init_state false false false))) [ex_high; ex_low].
 Proof. vm_compute. discriminate. Qed.
 Example samples_independent_refuted_unaligned :
-  run_samples (process_sample_cur PAuto true) [ex_unmapped; ex_low] (init_state true true)
-  <> map (fun e => fst (process_sample_cur PAuto true e (init_state true true))) [ex_unmapped; ex_low].
+  run_samples (process_sample_cur PAuto false true) [ex_unmapped; ex_low] (init_state true true false)
+  <> map (fun e => fst (process_sample_cur PAuto false true e (init_state true true false))) [ex_unmapped; ex_low].
 Proof. vm_compute. discriminate. Qed.
 Example samples_independent_refuted_detected_threads1 :
-  run_samples (process_sample_cur PAuto false) [ex_low; ex_low] (init_state true true)
-  <> map (fun e => fst (process_sample_cur PAuto false e (init_state true true))) [ex_low; ex_low]
-  /\ run_samples (process_sample_cur PAuto true) [ex_low; ex_low] (init_state true true)
-  = map (fun e => fst (process_sample_cur PAuto true e (init_state true true))) [ex_low; ex_low].
+  run_samples (process_sample_cur PAuto false false) [ex_low; ex_low] (init_state true true false)
+  <> map (fun e => fst (process_sample_cur PAuto false false e (init_state true true false))) [ex_low; ex_low]
+  /\ run_samples (process_sample_cur PAuto false true) [ex_low; ex_low] (init_state true true false)
+  = map (fun e => fst (process_sample_cur PAuto false true e (init_state true true false))) [ex_low; ex_low].
 Proof. split; [vm_compute; discriminate|reflexivity]. Qed.
 Example samples_independent_fix_on_the_witnesses :
-  run_samples (process_sample_fix false false PAuto false) [ex_high; ex_unmapped; ex_low; ex_low] (init_state false false)
-  = map (fun e => fst (process_sample_fix false false PAuto true e (init_state false false))) [ex_high; ex_unmapped; ex_low; ex_low].
+  run_samples (process_sample_fix false false PAuto true false) [ex_high; ex_unmapped; ex_low; ex_low; ex_replicas; ex_low] (init_state false false true)
+  = map (fun e => fst (process_sample_fix false false PAuto true true e (init_state false false true))) [ex_high; ex_unmapped; ex_low; ex_low; ex_replicas; ex_low].
 Proof. reflexivity. Qed.
 
+(* args.use_technical_replicas is per-experiment derived state: whatever value the previous experiments left (and in both modes, for both code
+   variants), the model constructor of an experiment sees read_group == "file_name" and more than one file *)
+Theorem use_technical_replicas_frame : forall dmi dme st rgfn pool e g g',
+  o_replicas (fst (process_sample_fix dmi dme st rgfn pool e g)) = replicas_flag rgfn e /\
+  o_replicas (fst (process_sample_cur st rgfn pool e g)) = replicas_flag rgfn e /\
+  o_replicas (fst (process_sample_fix dmi dme st rgfn pool e g)) = o_replicas (fst (process_sample_fix dmi dme st rgfn pool e g')).
+Proof.
+  intros. unfold process_sample_fix, process_sample_cur. cbn [fst o_replicas]. split; [reflexivity|]. split; [|reflexivity].
+  destruct (if pool then _ else _). reflexivity.
+Qed.
+(* a one-file experiment before a two-file one, reads grouped by file name: the second still gets the replica filter *)
+Example use_technical_replicas_example :
+  map o_replicas (run_samples (process_sample_fix true true PAuto true false) [ex_low; ex_replicas; ex_low; ex_replicas] (init_state true true true)) = [false; true; false; true].
+Proof. reflexivity. Qed.
 (* ================================================================ 5. combine_counts *)
 Lemma zinsert_mem x y l : memz x (zinsert y l) = (x =? y) || memz x l.
 Proof.
